@@ -33,14 +33,14 @@ DEV_ITER = "iterator-enabled-from-template"
 DEV_ERR = "iter-shared-err"
 DEV_MASK = "enabled-error-masked"
 
-INVS = "Inv_Shape Inv_NoDisabled Inv_NoEmpty Inv_Poison Inv_DevErr Inv_DevSame Inv_MaskOnlyErr Inv_Paths Inv_Order Inv_Bound Inv_Complete Inv_NestedPerOuter Inv_InnermostWins"
+INVS = "Inv_Shape Inv_NoDisabled Inv_NoEmpty Inv_Poison Inv_DevErr Inv_DevSame Inv_MaskOnlyErr Inv_Paths Inv_Order Inv_Bound Inv_Complete Inv_NestedPerOuter Inv_InnermostWins Inv_Channels"
 
 
 def tset(xs):
     return "{" + ", ".join('"%s"' % x for x in xs) + "}"
 
 
-def cfg_gen(maxnodes, maxdepth, kinds, fors, ens, vars_, xs, subs, poison, roots, uvs, shadow=("fresh",), spell=("canon",), invs=True):
+def cfg_gen(maxnodes, maxdepth, kinds, fors, ens, vars_, xs, subs, poison, roots, uvs, shadow=("fresh",), spell=("canon",), pu=(), invs=True):
     return """SPECIFICATION GenSpec
 CONSTANTS
   MaxNodes = %d
@@ -56,10 +56,11 @@ CONSTANTS
   UvKinds = %s
   ShadowKinds = %s
   SpellKinds = %s
+  PuKinds = %s
 %s
 CHECK_DEADLOCK FALSE
 """ % (maxnodes, maxdepth, tset(kinds), tset(fors), tset(ens), tset(vars_), tset(xs), tset(subs),
-       "TRUE" if poison else "FALSE", tset(roots), tset(uvs), tset(shadow), tset(spell), ("INVARIANTS " + INVS) if invs else "")
+       "TRUE" if poison else "FALSE", tset(roots), tset(uvs), tset(shadow), tset(spell), tset(pu), ("INVARIANTS " + INVS) if invs else "")
 
 
 def cfg_err(n, fails, shared):
@@ -139,6 +140,19 @@ SLICES_QUICK += [
      ["flag", "plain"], ["none", "flagoff"]),
 ]
 
+PUS = ["name", "var", "cons", "bind", "conn", "load"]
+SLICES_QUICK += [
+    # channels: bind `global` aliases and connect targets that depend on the iteration variable (g-{{ it }},
+    # data-{{ Parent().Name }}, peer-{{ it }}:in) in iterator template roles and in roles nested in them
+    ("chans", 3, 2, ["agg", "task"], ["none", "lab"], ["T"], ["none"], ["bind", "bindp", "conn"], [], False, ["flag"], ["none"]),
+    # the error family: a templated field (name, var, constraint value, bind alias, connect target, task class) with an
+    # unterminated "{{" - the load must fail
+    ("unterm", 2, 1, ["agg", "task", "call", "inc"], ["none", "lab"], ["T", "F", "iteq"], ["none"], ["none"], ["s1"], False, ["flag"], ["none"],
+     ["fresh"], ["canon"], PUS),
+    ("unterm3", 3, 2, ["agg", "task"], ["none", "lab"], ["T"], ["none"], ["none"], [], False, ["flag"], ["none"],
+     ["fresh"], ["canon"], ["bind", "load"]),
+]
+
 SLICES_THOROUGH = [
     SLICES_QUICK[0],
     ("struct4", 4, 3, ["agg", "task"], ["none", "lab", "le"], ["T", "iteq"], ["none"], ["none"], [], False, ["flag"], ["none"]),
@@ -170,14 +184,19 @@ SLICES_THOROUGH = [
     INCLROOT, SLICES_QUICK[-1],
     ("inclroot3", 3, 2, ["agg", "inc", "task"], ["none", "lab"], ["T", "iteq"], ["none", "flagoff"], ["none"], ["s6", "s7", "s8"], False,
      ["flag"], ["none"]),
+    SLICES_QUICK[-3], SLICES_QUICK[-2],
+    ("chans3", 3, 2, ["agg", "task", "call"], ["none", "lab", "be12"], ["T"], ["none"], ["bind", "bindp", "conn", "chan"], [], False, ["flag"], ["none"],
+     ["same", "fresh"]),
+    ("unterm3b", 3, 2, ["agg", "task", "inc"], ["none", "lab"], ["T", "iteq"], ["none"], ["none"], ["s1"], False, ["flag"],
+     ["none"], ["fresh"], ["canon"], PUS),
     ("incl3", 3, 2, ["agg", "inc"], ["none", "lb"], ["T", "iteq"], ["none", "flagit"], ["none"], ["s1", "s2", "s3", "s5"], False,
      ["flag"], ["none", "flagoff"]),
 ]
 
 # random larger templates (tlc -simulate): everything allowed
 SIM = (7, 3, ALLK, ["none", "lab", "labc", "lb", "le", "be12", "be21", "be02", "var", "dep", "beE", "bBe", "be20", "beN1", "be3N", "b2E", "be11"], ["T", "F", "flagon", "flagoff", "iteq", "itne"],
-       ["none", "flagoff", "flagit", "itx"], ["none", "hook", "cons", "chan"], ["s1", "s2", "s3", "s4", "s5", "s6", "s7", "s8", "smissing"], True,
-       ["plain", "flag", "lst", "both", "cards", "cardsab", "itvar", "itdef", "itcards"], ["none", "flagoff", "lstb", "lstbad"], ["fresh", "same"], ["canon"] + SPELLINGS)
+       ["none", "flagoff", "flagit", "itx"], ["none", "hook", "cons", "chan", "conn", "bind", "bindp"], ["s1", "s2", "s3", "s4", "s5", "s6", "s7", "s8", "smissing"], True,
+       ["plain", "flag", "lst", "both", "cards", "cardsab", "itvar", "itdef", "itcards"], ["none", "flagoff", "lstb", "lstbad"], ["fresh", "same"], ["canon"] + SPELLINGS, PUS)
 
 
 def ptlc(ctx, tag, module, cfg_text, workers=2, extra=None, timeout=1200):
@@ -239,7 +258,7 @@ def has_for(T):
 def may_err(T):
     """Templates in which some role instance may fail (poison, include, expressions on variables, ranges from variables):
     the ones for which the gated error hand-over schedules of the iterator children are worth running."""
-    return any(n["ps"] or n["k"] == "inc" or n["en"][0] in ("eq", "ne") or any(v[1] == "ref" for v in n["vs"]) or
+    return any(n["ps"] or n.get("pu") or n["k"] == "inc" or n["en"][0] in ("eq", "ne") or any(v[1] == "ref" for v in n["vs"]) or
                (n["for"] and (n["for"][0]["t"] in ("var", "dep") or n["for"][0]["bv"] or n["for"][0]["ev"])) for n in T)
 
 
@@ -306,7 +325,7 @@ def run(ctx):
         with open(ctx.replay) as fh:
             rp = json.load(fh)["replay"]
         slices = [("catalogue", 1, 1, ["task"], ["none"], ["T"], ["none"], ["none"], [], False, ["plain"], ["none"])]
-    nsim = 1 if ctx.replay else (25 if quick else 250)
+    nsim = 1 if ctx.replay else (25 if quick else 40)
     pool = ThreadPoolExecutor(max_workers=max(2, min(nw, 12)))
     wk = 2 if quick else max(2, min(nw // 2, 6))
     fut = {}
@@ -317,19 +336,22 @@ def run(ctx):
         fut["err_c"] = pool.submit(ptlc, ctx, "err_c", "WorkflowLoadErr", cfg_err(3, [2], False), 2)
     for sl in slices:
         fut["slice_" + sl[0]] = pool.submit(ptlc, ctx, "slice_" + sl[0], "WorkflowLoadGen", cfg_gen(*sl[1:]), wk, ["-dump", "states"])
-    sim = SIM
-    if quick:
-        # TLC enumerates all successors of a state to pick one: the quick tier simulates over a seeded sub-vocabulary
-        rs_ = random.Random(ctx.seed * 7 + 3)
+    # TLC enumerates ALL successors of a state to pick one: simulation runs over seeded sub-vocabularies of the family
+    # (one batch in the quick tier, several differently drawn batches in the thorough tier)
+    nbatch = 1 if (quick or ctx.replay) else 6
+    for bi in range(nbatch):
+        rs_ = random.Random(ctx.seed * 7 + 3 + 1009 * bi)
 
         def pick(xs, n, keep):
             rest = [x for x in xs if x not in keep]
             rs_.shuffle(rest)
             return list(keep) + rest[:max(0, n - len(keep))]
         sim = (SIM[0], SIM[1], SIM[2], pick(SIM[3], 6, ["none"]), pick(SIM[4], 4, ["T"]), pick(SIM[5], 3, ["none"]),
-               pick(SIM[6], 3, ["none"]), pick(SIM[7], 3, []), SIM[8], pick(SIM[9], 3, []), pick(SIM[10], 2, ["none"]), SIM[11], pick(SIM[12], 3, []))
-    fut["sim"] = pool.submit(ptlc, ctx, "sim", "WorkflowLoadGen", cfg_gen(*sim, invs=False), 1,
-                             ["-simulate", "file=sim/b,num=%d" % nsim, "-depth", str(SIM[0] + 1), "-seed", str(ctx.seed * 104729 + 17)])
+               pick(SIM[6], 3, ["none"]), pick(SIM[7], 3, []), SIM[8], pick(SIM[9], 3, []), pick(SIM[10], 2, ["none"]), SIM[11],
+               pick(SIM[12], 3, []), pick(SIM[13], 2, []))
+        fut["sim%d" % bi] = pool.submit(ptlc, ctx, "sim%d" % bi, "WorkflowLoadGen", cfg_gen(*sim, invs=False), 1,
+                                        ["-simulate", "file=sim/b,num=%d" % nsim, "-depth", str(SIM[0] + 1),
+                                         "-seed", str(ctx.seed * 104729 + 17 + bi)])
     fut["build"] = pool.submit(ctx.build, "wfload")
 
     # 1. schedule-dependent part: error hand-over of concurrently processed children
@@ -389,23 +411,28 @@ def run(ctx):
     if ctx.replay:
         cases.clear()
         add_case({"T": rp["T"], "uv": rp["uv"], "sp": rp.get("sp", "canon")}, "replay")
-    rs = fut["sim"].result()
-    if rs.rc == 124:
-        raise vlib.Inconclusive("TLC simulation timeout")
-    behs = []
-    for f in sorted(glob.glob(os.path.join(rs.dir, "sim", "b_*")), key=vlib._natkey):
-        with open(f) as fh:
-            behs.append(tlaval.parse_simfile(fh.read()))
-    if not behs:
-        ctx.save_debug(rs, "tlc_sim_WorkflowLoadGen.txt")
-        raise vlib.Inconclusive("TLC simulation of WorkflowLoadGen produced no behaviours: %s" % vlib.tail(rs.out))
-    ctx.ntlc += 1
     nb = len(cases)
-    for b in behs:
-        for (a, args, st) in b[1:]:
-            if not ctx.replay:
-                add_case(st, "simulate")
-    ctx.log("simulate: %d behaviours, %d new templates (%.1fs)" % (len(behs), len(cases) - nb, rs.wall))
+    nbeh = 0
+    swall = 0.0
+    for bi in range(nbatch):
+        rs = fut["sim%d" % bi].result()
+        if rs.rc == 124:
+            raise vlib.Inconclusive("TLC simulation timeout")
+        behs = []
+        for f in sorted(glob.glob(os.path.join(rs.dir, "sim", "b_*")), key=vlib._natkey):
+            with open(f) as fh:
+                behs.append(tlaval.parse_simfile(fh.read()))
+        if not behs:
+            ctx.save_debug(rs, "tlc_sim_WorkflowLoadGen.txt")
+            raise vlib.Inconclusive("TLC simulation of WorkflowLoadGen produced no behaviours: %s" % vlib.tail(rs.out))
+        ctx.ntlc += 1
+        nbeh += len(behs)
+        swall = max(swall, rs.wall)
+        for b in behs:
+            for (a, args, st) in b[1:]:
+                if not ctx.replay:
+                    add_case(st, "simulate")
+    ctx.log("simulate: %d behaviours in %d batch(es), %d new templates (%.1fs)" % (nbeh, nbatch, len(cases) - nb, swall))
     ctx.extra["exhaustive_slices"] = [m for m in ctx.model_runs if m["module"] == "WorkflowLoadGen"]
 
     scen = []
